@@ -136,6 +136,10 @@ def updsOf (cellf : Coord → Coord → Option Nat) (val : Pt → Rat) (pts : Li
 
 def Pt.layer (l : Nat) (p : Pt) : Rat := p.vals.getD l 0
 
+/-- `updsOf` with the cells computed once (driver); `updsOf_eq_updsZ` in OsyrisProofs/C05.lean -/
+def updsZ (cells : List (Option Nat)) (vals : List Rat) : List Upd :=
+  (List.zip cells vals).filterMap fun p => p.1.map fun c => (c, p.2)
+
 /-- `counts` of `hist2d` for an arbitrary cell function -/
 def countsImg (cellf : Coord → Coord → Option Nat) (size : Nat) (pts : List Pt) : Img :=
   accum (zeros size) (updsOf cellf (fun _ => 1) pts)
